@@ -86,8 +86,8 @@ def same(ex, st, a, b):
 
 
 def run(rep):
-    nframes_list = [0, 1]
-    rep.bounds = dict(registers=1, call_frames=1, scope_stack=1, trampoline_frames='0 and 1', values='symbolic numbers / object handles')
+    nframes_list = [0, 1] if rep.tier == 'quick' else [0, 1, 2]
+    rep.bounds = dict(registers=1, call_frames=1, scope_stack=1, trampoline_frames='0 and 1 (thorough: also 2)', values='symbolic numbers / object handles')
     rep.assumptions = ['Heap::create_guard returns a fresh guard token; Guard::guard is recorded as an event',
                        'one register, one call frame, one saved scope, at most one trampoline frame (loops over longer vectors repeat the same body)']
     rep.outside = ['host schedules, batching of responses, order of settling independent promises', 'promise combinators', 'generator resumption paths']
@@ -185,8 +185,9 @@ def run(rep):
                     if not isinstance(fa, VecV) or len(fa.items) != len(fb):
                         checks.append(('trampoline_stack', VecV(fb), fa))
                     else:
-                        for n in FRAME_MUST_SURVIVE:
-                            checks.append(('trampoline_stack.' + n, fb[0].fields.get(T[n]), fa.items[0].fields.get(T[n])))
+                        for fi_ in range(len(fb)):
+                            for n in FRAME_MUST_SURVIVE:
+                                checks.append(('trampoline_stack.' + n, fb[fi_].fields.get(T[n]), fa.items[fi_].fields.get(T[n])))
                 for n, x, y in checks:
                     if x is None and y is None:
                         continue
